@@ -135,6 +135,14 @@ for m, o in zip(se_meta, drv.run(se_lines) if se_lines else []):
                       "analytically computed leg lengths and angles",
                       dict(m, correspondence="Model.Beamspread.beamspread on independent geometry"),
                       failing_input_found=spec_fails)
+    elif not close(m["impl_rev"], rb, 1e-9):
+        # reverse beamspread on the same Snell-exact ray (contact-like paths may start and end in the same wave mode,
+        # through tilted walls): the model's reverse value is the proved tube amplitude of the reversed ray
+        chk.violation(f"snell-exact-reverse:{m['nlegs']}legs",
+                      "reverse_beamspread_2d_for_path on a Snell-exact ray (tilted walls) differs from the model fed with "
+                      "analytically computed leg lengths and angles",
+                      dict(m, model_reverse=rb, correspondence="Model.Beamspread.reverse_beamspread on independent geometry"),
+                      failing_input_found=True)
     elif not close(b, m["tube"], 1e-5) and b == b:
         # the model itself disagrees with the finite-difference tube: model/spec problem, not arim's
         chk.violation("snell-exact:fd-tube", "finite-difference ray tube disagrees with the proved model", m,
